@@ -36,9 +36,31 @@ def runs_of(sc):
     return [o for o in sc["ops"] if o["op"] == "index"]
 
 
+def categories(s):
+    """what a history exercises between an indexing run and the DELTA request that follows it."""
+    cats = set()
+    r = runs_of(s)
+    for prev, cur in zip(r, r[1:]):
+        if not cur["delta"]:
+            continue
+        if prev["brs"] != cur["brs"]:
+            cats.add("brs-order" if sorted(prev["brs"]) == sorted(cur["brs"]) else "brs-set")
+        if prev["opt"] != cur["opt"]:
+            cats.add("opt")
+        if cur["thr"] > 0:
+            cats.add("thr")
+        if prev["brs"] == cur["brs"] and prev["opt"] == cur["opt"]:
+            cats.add("plain")
+    if s.get("dev"):
+        cats.add("dev")
+    return cats or {"none"}
+
+
 def select(scripts, n, rng, want_runs):
     """the longest histories (every run inside them is validated, so their prefixes are covered
-    on the way), preferring those with delta runs late."""
+    on the way), preferring those with delta runs late; the categories (plain delta, branch
+    list reordered / changed, option hash changed, shard threshold, model-predicted deviation)
+    are served round-robin so that every fallback reason is replayed in every run."""
     key = lambda s: json.dumps(s["ops"], sort_keys=True)
     full = [s for s in scripts if len(runs_of(s)) >= want_runs]
     full.sort(key=key)
@@ -48,11 +70,22 @@ def select(scripts, n, rng, want_runs):
         r = runs_of(s)
         return sum(1 for x in r[1:] if x["delta"]) * 2 + sum(1 for o in s["ops"] if o["op"] == "commit")
     full.sort(key=weight, reverse=True)
-    # histories in which the model takes the named deviation (ignore family) first
-    full.sort(key=lambda s: not s.get("dev", False))
-    # two thirds by weight, one third uniformly from the rest
+    by_cat = {}
+    for i, s in enumerate(full):
+        for c in categories(s):
+            by_cat.setdefault(c, []).append(i)
+    chosen, taken, order = [], set(), sorted(by_cat)
     k = (2 * n) // 3
-    return full[:k] + rng.sample(full[k:], min(n - k, max(0, len(full) - k)))
+    while len(chosen) < k and any(by_cat[c] for c in order):
+        for c in order:
+            while by_cat[c] and by_cat[c][0] in taken:
+                by_cat[c].pop(0)
+            if by_cat[c] and len(chosen) < k:
+                taken.add(by_cat[c][0])
+                chosen.append(by_cat[c].pop(0))
+    rest = [i for i in range(len(full)) if i not in taken]
+    chosen += rng.sample(rest, min(n - len(chosen), len(rest)))
+    return [full[i] for i in chosen]
 
 
 def run(ctx):
@@ -72,7 +105,7 @@ def run(ctx):
     m1 = gen("Delta_mc.cfg", defs(P2, 3, 3, "tree", True))
     families.append(("core", m1.printed("SCRIPT"), ctx.pick(50, 400), 3))
     g = gen("Delta_fallback.cfg", defs(P2, 2, 3, "atomic", True))
-    families.append(("fallback", g.printed("SCRIPT"), ctx.pick(20, 200), 3))
+    families.append(("fallback", g.printed("SCRIPT"), ctx.pick(30, 200), 3))
     g = gen("Delta_ignore.cfg", defs(PIG3 if T else PIG, 3, ctx.pick(2, 3), "tree", True))
     families.append(("ignore", g.printed("SCRIPT"), ctx.pick(15, 100), ctx.pick(2, 3)))
     if T:
